@@ -853,6 +853,14 @@ func randDoc(rng *rand.Rand) dDoc {
 			}
 			d.Primary = append(d.Primary, randDocRes(rng, typ, ids[i]))
 		}
+		if d.Kind == "many" && d.Coll == "resources" && len(d.Primary) > 0 && rng.Intn(4) == 0 {
+			// the same id under the other type (ids are unique per type only)
+			other := "t1"
+			if d.Primary[0].Type == "t1" {
+				other = "t2"
+			}
+			d.Primary = append(d.Primary, randDocRes(rng, other, d.Primary[0].ID))
+		}
 	case "errors":
 		d.NErrors = 1 + rng.Intn(7)
 		for i := rng.Intn(3); i > 0; i-- { // errors may come with data and included already set
